@@ -36,7 +36,8 @@ VOCAB = [
 KEYWORDS = ["has_child", "name", "max", "min", "parent", "unique", "distinct"]
 PARAMS = ["", ",", "a", "a,", ",a", "a,b", " ", "''", '""', "&", "&a", "&x",
           "0", "1", "-1", "9", "1.5", "x", "*", ".", "a.b", "/", "\\,",
-          "a\\,b", "' '", "~", "1,2", "-", "+1", "1e3", "0x1", "١"]
+          "a\\,b", "' '", "~", "1,2", "-", "+1", "1e3", "0x1", "١",
+          "x\\\"y", "x\\'y", "\\\"", "a\\ b"]
 ATTRS = [".", "a", "b", "*", "**", "a.b", "&x", "''", "1", "0", "-1", "a*",
          "\\.", " a"]
 OPERATORS = ["=", "==", "!=", "<", ">", "<=", ">=", "^", "$", "%", "=~",
@@ -47,7 +48,8 @@ TERMS = ["", "a", "1", "1.5", "-1", "0", "''", '""', " ", "~", "null", "true",
          "9" * 30, "1" + "0" * 400]
 REGEX_TERMS = ["/a/", "/(/", "/", "//", "/[/", "/a", "a", "", "/*/", "/(?P<x/",
                "/\\/", "/a/b/", ",a,", "|(|", "/(a|)/", "/^$/", "/./",
-               "/(?i)A/", "/a{2,1}/", "/\\1/"]
+               "/(?i)A/", "/a{2,1}/", "/\\1/", "/b{4294967296}/",
+               "/" + "(" * 120 + "a" + ")" * 120 + "/"]
 PREFIXES = ["", "/a", "/*"]
 # key names that are literal syntax for something else in Python or YAML
 KEYTEXTS = ["{}", "{1}", "{1: 2}", "\\[\\]", "\\[1, 2\\]", "'[1, 2]'",
@@ -128,6 +130,16 @@ def grammar_docs():
         ["M", [["a", ["T", ["a", "b"], None]], ["b", S(1.5)]], None],
         ["M", [["a", ["L", [S("a"), S(1), S(None), S(True), S(1.5)], None]]],
          None],
+    ]
+    # scalars that Python's literal parser chokes on when the searches try
+    # to type them: long prose, long operator chains, an int wider than the
+    # int-to-str limit
+    prose = " ".join("word%d" % i for i in range(1700))
+    chain = "/".join(["dir"] * 3200)
+    extra += [
+        ["M", [["a", ["L", [S(prose), S("x")], None]], ["b", S(chain)]],
+         None],
+        ["L", [S(chain), S(1), ["M", [["a", S(prose)]], None]], None],
     ]
     return gdocs.specs_upto(2) + family_docs()[::5] + extra
 
